@@ -170,6 +170,8 @@ def run_exact(rep, tier):
                     rec = sum((basis[i] * ip(basis[i], x) for i in range(sz)), vs.zeros())
                     okb = okb and onp.allclose(rec, x, rtol=1e-2, atol=1e-3)
                 chk(case, "VS-basis", okb, f"{len(basis)} basis members for size {sz}")
+                chk(case, "VS-basis-in-space", all(C.vspace(b) == vs for b in basis) and C.vspace(vs.zeros()) == vs and C.vspace(vs.ones()) == vs
+                    and (n == 0 or C.vspace(vs.randn()) == vs), f"standard_basis / zeros / ones / randn of the space of a {x.dtype} array of shape {shp} must be elements of that space (same dtype)")
                 on = vs.ones()
                 chk(case, "VS-ones", on.shape == shp and (onp.array_equal(on, onp.ones(shp) * (1 + 1j)) if cplx else onp.array_equal(on, onp.ones(shp))))
     # ---- scalar types registry
@@ -177,7 +179,8 @@ def run_exact(rep, tier):
                      (1.5 + 2j, ComplexArrayVSpace), (onp.complex128(1 + 2j), ComplexArrayVSpace), (onp.complex64(1 + 2j), ComplexArrayVSpace), (onp.clongdouble(1 + 2j), ComplexArrayVSpace)]:
         try:
             vs = C.vspace(val)
-            ok = type(vs) is cls and vs.shape == () and int(vs.size) == (2 if cls is ComplexArrayVSpace else 1) and len(list(vs.standard_basis())) == int(vs.size)
+            ok = type(vs) is cls and vs.shape == () and int(vs.size) == (2 if cls is ComplexArrayVSpace else 1) and len(list(vs.standard_basis())) == int(vs.size) \
+                and all(onp.asarray(b).dtype == onp.asarray(val).dtype for b in vs.standard_basis()) and onp.asarray(vs.zeros()).dtype == onp.asarray(val).dtype
         except Exception as e:
             ok = False
         chk(f"scalar-{type(val).__name__}", "VS-registry", ok, f"vspace({type(val).__name__})")
